@@ -71,6 +71,8 @@ type DatabaseI interface {
 type compactionAction struct {
 	pathsToCompact []string
 	totalRecords   uint64
+	// includesOldest is true when the oldest table is part of pathsToCompact
+	includesOldest bool
 }
 
 type memStoreFlushAction struct {
